@@ -150,6 +150,7 @@ type Exec struct {
 	prefHash       [][32]byte // cache.go
 	guardProv      map[string]*guardInfo // guard.go: map references read out of guarded fields
 	entryWM        Term
+	rangeDom0      map[*ssa.Range]string // key-set term of a ranged-over map when its iteration started
 }
 
 type retInfo struct {
